@@ -53,6 +53,7 @@ func grpcGrammatical(s string) (*big.Int, bool) {
 var maxDuration = big.NewInt(1<<63 - 1)
 
 type tmoProbe struct {
+	entered  time.Time
 	ran      bool
 	deadline time.Time
 	has      bool
@@ -61,6 +62,7 @@ type tmoProbe struct {
 func serveWithTimeout(grpc bool, header string) (status int, code string, probe tmoProbe, t0, t1 time.Time) {
 	p := &probe
 	h := connect.NewClientStreamHandler("/s/m", func(ctx context.Context, stream *connect.ClientStream[emptypb.Empty]) (*connect.Response[emptypb.Empty], error) {
+		p.entered = time.Now()
 		p.ran = true
 		p.deadline, p.has = ctx.Deadline()
 		return connect.NewResponse(&emptypb.Empty{}), nil
@@ -194,6 +196,20 @@ func timeoutOp(c *Ctx, op string) {
 			s := string(unhx(f[1]))
 			grpc := f[0] == "gtmo.serve"
 			status, code, probe, t0, t1 := serveWithTimeout(grpc, s)
+			// the deadline is computed between t0 and the moment user code is entered; under load
+			// that bracket can be wider than the millisecond grid: measure again (the tightest wins)
+			for try := 0; try < 20 && probe.ran && probe.has && !grpc; try++ {
+				if !probe.entered.IsZero() && probe.entered.Before(t1) {
+					t1 = probe.entered
+				}
+				if t1.Sub(t0) <= 400*time.Microsecond {
+					break
+				}
+				status, code, probe, t0, t1 = serveWithTimeout(grpc, s)
+			}
+			if !probe.entered.IsZero() && probe.entered.Before(t1) {
+				t1 = probe.entered
+			}
 			_ = status
 			ranStr := "norun"
 			if probe.ran {
